@@ -22,7 +22,7 @@ from ..ref import cov as rcov
 
 ID = 'C06'
 LEVEL = 'exploration'
-DECIDING = ['tap:covariance', 'cov_calls_judged', 'scale_sweeps_judged', 'histories_judged', 'pearson_pairs', 'permutations_judged', 'external_JSJ_judged',
+DECIDING = ['tap:covariance', 'cov_calls_judged', 'scale_sweeps_judged', 'histories_judged', 'function_histories_judged', 'pearson_pairs', 'permutations_judged', 'external_JSJ_judged',
             'chol_judged', 'sort_corr_judged', 'smooth_judged', 'error_band_judged']
 RULE = ('cases: lists of 2/3/5/8 analysed observables with support {one chain, replicas (subsets), two ensembles, covariance inputs only, '
         'mixed} x list relation {identical, nested, overlapping} (primaries and derived quantities, lengths 12-60 quick / up to 300 '
@@ -789,6 +789,21 @@ def case_error_band(ctx, rng):
     got = pe.fits.error_band(arg_x, f_lib, beta)
     ctx.count('error_band_judged')
     ctx.close(np.asarray(got, dtype=float), exp, 'error_band:differs-from-sqrt-gT-C-g', 'model %s support %s error size %.1e' % (name, support, esize), rtol=1e-8)
+    # the SAME model function object with other parameter values and other points (nothing of the first call may be remembered)
+    if rng.random() < 0.5:
+        beta_b = [b + float(rng.uniform(0.2, 0.6)) for b in beta]
+        for b2, sval in zip(beta_b, svals):
+            b2.gamma_method(S=sval)
+        xs_b = np.sort(rng.uniform(0.0, 3.0, size=int(rng.integers(1, 6))))
+        _, _, cov_b = rcov.matrices([snap(b) for b in beta_b], [b.dvalue for b in beta_b])
+        exp_b, grads_b = rcov.band(f_ref, [b.value for b in beta_b], cov_b, xs_b)
+        qs_b = np.array([float(np.sum(np.abs(np.outer(g, g) * cov_b))) for g in grads_b])
+        if np.all(np.isfinite(exp_b)) and not np.any(exp_b ** 2 < 1e-8 * qs_b):
+            got_b = pe.fits.error_band(xs_b, f_lib, beta_b)
+            ctx.count('function_histories_judged')
+            ctx.close(np.asarray(got_b, dtype=float), exp_b, 'error_band:differs-from-sqrt-gT-C-g', 'second call with the same model function object, model %s' % name, rtol=1e-8)
+            again = pe.fits.error_band(arg_x, f_lib, beta)
+            ctx.require(np.array_equal(np.asarray(again, dtype=float), np.asarray(got, dtype=float)), 'error_band:result-depends-on-call-history', {'model': name})
     # models that are linear in the parameters: the band is homogeneous of degree one in the parameters
     if name in ('linear', 'quadratic'):
         c = float(rng.choice([-1, 1])) * float(10.0 ** rng.integers(-8, 9))
